@@ -291,6 +291,7 @@ func (e *Engine) builtin(st *State, f *Frame, res ssa.Value, in ssa.Instruction,
 		if m.obj == 0 {
 			return
 		}
+		e.guardCheck(st, f, in, m.obj, true, true)
 		e.mapApply(st, m.obj, args[1], func(s *State, idx int) {
 			if idx >= 0 {
 				o := s.mut(m.obj)
